@@ -49,30 +49,6 @@ pub fn fp_never(_: &mut World) { panic!("a cleanup function pointer outside the 
 pub struct KeepFn(pub fn(&mut World));
 impl Resource for KeepFn {}
 
-/// R0: one system command, run from the root: runs exactly once, callback back in storage, counter reset, nothing buffered.
-#[kani::proof]
-#[kani::stub(core::any::TypeId::of, crate::vh::stub_typeid_of)]
-#[kani::stub(<core::any::TypeId as crate::vh::PEq>::eq, crate::vh::stub_typeid_eq)]
-#[kani::stub(crate::ecs::auto_despawn::garbage_collect_entities, stub_noop)]
-#[kani::stub(crate::react::utils::schedule_removal_and_despawn_reactors, stub_noop)]
-#[kani::stub(bevy::world::Commands::queue, bevy::world::Commands::m_queue_record)]
-#[kani::unwind(3)]
-fn runner_single_run()
-{
-    let mut world = mk_world();
-    world.m_apply_table::<(SystemCommand,)>();
-    world.m_drop_table::<bevy::model::cell::LeakAll>();
-    let cb = SystemCommandCallback::with(|w: &mut World, cleanup: SystemCommandCleanup| { w.resource_mut::<Log>().push(1); cleanup.run(w); });
-    let s = spawn_system_command_from(&mut world, cb);
-    syscommand_runner(&mut world, s, SystemCommandSetup::default(), SystemCommandCleanup::default());
-    assert!(world.resource::<Log>().len == 1, "C02: the system ran exactly once");
-    assert!(has_callback(&world, s), "C11: the system is back in its storage");
-    assert!(counter(&world) == 0, "C11: counter reset");
-    kani::cover!(true, "end of harness reached");
-    std::mem::forget(world);
-}
-
-
 //-------------------------------------------------------------------------------------------------------------------
 // step obligations: symbolic pre-state + ONE call of the real runner (nested calls only reach log-only systems)
 //-------------------------------------------------------------------------------------------------------------------
@@ -101,6 +77,7 @@ pub fn cleanup_k(k: u8) -> SystemCommandCleanup
 {
     SystemCommandCleanup::new(match k { 1 => cleanup_1, 2 => cleanup_2, 3 => cleanup_3, _ => cleanup_4 })
 }
+pub fn setup_parts(s: &SystemCommandSetup) -> (SystemCommand, fn(&mut World, SystemCommand)) { (s.reactor, s.setup) }
 pub fn set_counter(world: &mut World, v: usize) { **world.resource_mut::<SyscommandCounter>() = v; }
 pub fn buffered_len(world: &World) -> usize { crate::react::command_queue::verif_h::queue_len(world.resource::<CobwebCommandQueue<BufferedSyscommand>>()) }
 pub fn buffered_at(world: &World, i: usize) -> BufferedSyscommand { crate::react::command_queue::verif_h::queue_at(world.resource::<CobwebCommandQueue<BufferedSyscommand>>(), i) }
@@ -362,14 +339,13 @@ runner_top_harness!(runner_step_replay_2_root, 4, { step_replay::<2>(true) });
 runner_top_harness!(runner_step_replay_2_nested, 4, { step_replay::<2>(false) });
 runner_top_harness!(runner_step_replay_3_root, 5, { step_replay::<3>(true) });
 runner_top_harness!(runner_step_replay_3_nested, 5, { step_replay::<3>(false) });
-runner_top_harness!(diag_top_is_real_body, 3, {
+
+/// vacuity twin of the step family: the plain-run path is reachable (the final assert(false) must come back violated)
+runner_harness!(runner_step_witness, 3, {
     let mut world = mk_world();
     world.m_apply_table::<(SystemCommand,)>();
     world.m_drop_table::<bevy::model::cell::LeakAll>();
     let a = logger(&mut world, 1);
-    top_runner(&mut world, a, setup_k(1, a), cleanup_k(1));
-    kani::cover!(log_is(&world, &[11, 1, 21]), "top_runner executed the real runner body");
-    kani::cover!(log_is(&world, &[100]), "top_runner executed the recorder");
-    kani::cover!(nested_n() == 1, "one nested call recorded");
-    std::mem::forget(world);
+    syscommand_runner(&mut world, a, setup_k(1, a), cleanup_k(1));
+    assert!(false, "witness: end of the runner step reached");
 });
